@@ -61,6 +61,9 @@ func (g *fnGen) execBlock(b *ssa.BasicBlock, st *state) {
 		if ended {
 			break
 		}
+		if g.ct != nil && g.ct.Flags["no-package-state"] {
+			g.packageStateObligations(st, ins)
+		}
 		switch x := ins.(type) {
 		case *ssa.DebugRef:
 		case *ssa.Alloc:
@@ -881,4 +884,24 @@ func (g *fnGen) bumpGhost(st *state, name, key string) {
 	n := g.freshConst(name, "(Array Int Int)")
 	g.assert(S("=", n, S("store", arr, key, S("+", S("select", arr, key), "1"))))
 	st.heap[name] = n
+}
+
+// packageStateObligations (flag `no-package-state`): the function's behaviour depends on its arguments and
+// receiver only — every use of a package-level variable of the module that is written anywhere after
+// initialisation (or whose address escapes) is an obligation that cannot be discharged.
+func (g *fnGen) packageStateObligations(st *state, ins ssa.Instruction) {
+	if _, ok := ins.(*ssa.DebugRef); ok {
+		return
+	}
+	for _, op := range ins.Operands(nil) {
+		gl, ok := (*op).(*ssa.Global)
+		if !ok || gl.Pkg == nil || !strings.HasPrefix(gl.Pkg.Pkg.Path(), modulePath) {
+			continue
+		}
+		if _, imm := g.P.immutable[gl]; imm {
+			continue
+		}
+		name := gl.Pkg.Pkg.Name() + "." + gl.Name()
+		g.oblige(st, "package-state", name, ins.Pos(), "", "false", "use of the mutable package-level variable "+name+" in a function declared no-package-state (state that outlives the VM / request it was computed for)")
+	}
 }
